@@ -182,9 +182,10 @@ class _FakeOS:
         if q in fs.files:
             mt, ino = fs.meta.get(q, (0, 1))
             n = len(fs.files[q].encode())
-            return _real_os.stat_result((0o100644, ino, 1, 1, 0, 0, n, float(mt), float(mt), float(mt)))
+            ns = {"st_atime_ns": int(mt) * 10 ** 9, "st_mtime_ns": int(mt) * 10 ** 9, "st_ctime_ns": int(mt) * 10 ** 9}
+            return _real_os.stat_result((0o100644, ino, 1, 1, 0, 0, n, float(mt), float(mt), float(mt)), ns)
         if q in fs.dirs:
-            return _real_os.stat_result((0o040755, 2, 1, 2, 0, 0, 0, 0.0, 0.0, 0.0))
+            return _real_os.stat_result((0o040755, 2, 1, 2, 0, 0, 0, 0.0, 0.0, 0.0), {"st_atime_ns": 0, "st_mtime_ns": 0, "st_ctime_ns": 0})
         raise FileNotFoundError(errno.ENOENT, "No such file or directory", p)
 
     def remove(self, p):
